@@ -38,8 +38,7 @@ Print Assumptions C10_bisect_append.
    connect_locations(wrap_point = record length) of the members = the stored candidate location, children
    contained, regions disjoint and in order), each kind is strictly increasing under
    CDSCollection.__lt__ (no_ties: no two members of a kind with equal sort keys), and sorted() writes
-   every kind in stored order (order_kept; evaluated, not derived from no_ties: see
-   C10_relink_no_ties_alone_refuted).  Then writing and re-reading gives back exactly the same lists -
+   every kind in stored order (order_kept; evaluated, not derived from no_ties).  Then writing and re-reading gives back exactly the same lists -
    same numbering, same cross references, same recomputed locations, same cores.
    PARTIAL: order_kept is a hypothesis checked at run time on every generated case, not a consequence
    proved from the sortedness of the stored lists. *)
@@ -77,15 +76,24 @@ Theorem C10_relink_ties_refuted : exists n R R',
 Proof. exact relink_ties_refuted. Qed.
 Print Assumptions C10_relink_ties_refuted.
 
-(* "no equal keys" alone (the guard planned in DESIGN) does not suffice either: on a circular record a
-   candidate covering the whole record as [0:N] and an origin-spanning candidate are each less than the
-   other, sorted() writes them in the other order, and their numbers swap on reload
-   (known finding whole_record_vs_origin_spanning_order) *)
-Theorem C10_relink_no_ties_alone_refuted : exists n R R',
-  items_ok n R = true /\ no_ties R = true /\ order_kept R = false /\ lt_consistent R = false /\
-  roundtrip n R = Ok R' /\ skel_eqb R' R = false /\ file_eqb (dump R') (dump R) = false.
-Proof. exact relink_no_ties_alone_refuted. Qed.
-Print Assumptions C10_relink_no_ties_alone_refuted.
+(* CDSCollection.__lt__ never answers "less" both ways (mirrored containment shortcut, repair of the
+   finding whole_record_vs_origin_spanning_order): for ALL locations, hence every skeleton is
+   lt_consistent - the class of the former finding is empty *)
+Theorem C10_lt_asymmetric : forall a b, lt_loc a b = true -> lt_loc b a = false.
+Proof. exact lt_loc_asym. Qed.
+Print Assumptions C10_lt_asymmetric.
+
+Theorem C10_lt_consistent : forall R, lt_consistent R = true.
+Proof. exact lt_consistent_always. Qed.
+Print Assumptions C10_lt_consistent.
+
+(* the former witness (circular record of 300: a candidate covering the whole record as [0:300] and an
+   origin-spanning candidate, which swapped numbers on every reload) satisfies the guard and is
+   re-read as itself *)
+Theorem C10_relink_whole_record_witness :
+  guard 300 W_whole = true /\ roundtrip 300 W_whole = Ok W_whole.
+Proof. exact relink_whole_record_witness. Qed.
+Print Assumptions C10_relink_whole_record_witness.
 
 (* ---- qualifier-level codecs ---- *)
 
